@@ -108,6 +108,13 @@ Theorem C06_preempt_call : forall cap act s e, 1 <= cap -> length (users s) <= c
 Proof. exact preempt_call. Qed.
 Print Assumptions C06_preempt_call.
 
+(* that user w -- worst (users s) is sorted(users, key)[-1] -- is the worst-ranked current user under the full rank
+   (priority, time, preempting first, arrival), in every reachable state *)
+Theorem C06_victim_is_worst_ranked : forall cap t0 acts s w u, 1 <= cap -> run KPreempt cap (init t0) acts = Some s ->
+  worst (users s) = Some w -> In u (users s) -> u = w \/ rank_ltb KPreempt u w = true.
+Proof. exact victim_is_worst_ranked. Qed.
+Print Assumptions C06_victim_is_worst_ranked.
+
 (* the same for a whole request() call on a PreemptiveResource nobody is waiting for, in any reachable state *)
 Theorem C06_preempt_request : forall cap t0 acts s p prio pre, 1 <= cap ->
   run KPreempt cap (init t0) acts = Some s -> adm s (ARequest p prio pre) = true -> queue s = [] ->
